@@ -36,6 +36,7 @@ type nativeOp struct {
 	// (forged signed message class, or a documented refusal of the precompile itself).
 	MustReject string
 	Input      []byte // calldata sent to the precompile
+	Choice     string // transfer(): which rule of the documented validator choice applied (filled by the twin)
 }
 
 func (op *nativeOp) describe() map[string]any {
@@ -302,7 +303,7 @@ func (w *world) native(ctx sdk.Context, op *nativeOp) error {
 			return fmt.Errorf("no validator to select")
 		}
 		op.Val = val
-		_ = why
+		op.Choice = why
 		_, err := w.stakeSrv.Delegate(ctx, &stakingtypes.MsgDelegate{DelegatorAddress: del, ValidatorAddress: val.String(), Amount: coin(op.Amount)})
 		return err
 	}
@@ -372,12 +373,20 @@ func (w *world) chooseTransferValidator(ctx sdk.Context, delegator common.Addres
 		vb, _ := sk.ValidatorAddressCodec().StringToBytes(c.oper)
 		return vb
 	}
+	tie := func(cs []cand, i int) string {
+		for j := range cs {
+			if j != i && cs[j].tokens.Cmp(cs[i].tokens) == 0 {
+				return "+equal-power-tie"
+			}
+		}
+		return ""
+	}
 	switch {
 	case len(mine) == 1:
 		return pick(mine[0]), "only-delegated"
 	case len(mine) > 1:
 		sort.Slice(mine, func(i, j int) bool { return less(mine[i], mine[j]) })
-		return pick(mine[0]), "lowest-of-delegated"
+		return pick(mine[0]), fmt.Sprintf("lowest-of-%d-delegated%s", len(mine), tie(mine, 0))
 	}
 	all, err := sk.GetAllValidators(ctx)
 	if err != nil {
@@ -393,7 +402,7 @@ func (w *world) chooseTransferValidator(ctx sdk.Context, delegator common.Addres
 		return nil, ""
 	}
 	sort.Slice(bonded, func(i, j int) bool { return less(bonded[i], bonded[j]) })
-	return pick(bonded[len(bonded)/2]), "mid-of-bonded"
+	return pick(bonded[len(bonded)/2]), fmt.Sprintf("mid-of-%d-bonded%s", len(bonded), tie(bonded, len(bonded)/2))
 }
 
 // pendingRewards lists the pending reward of every delegation in the state (each computed on
